@@ -76,3 +76,16 @@ Print Assumptions C18_viscosity_decreasing.
 Example C18_example : increasing ([] ++ (1, 10) :: (2, 30) :: [(4, 20)]) /\ 1 < 3 / 2 < 2.
 Proof. exact LC18.example_premises. Qed.
 Print Assumptions C18_example.
+
+(* global monotonicity: a table whose keys and values both increase, read with both extrapolation flags on, denotes a
+   strictly increasing function on the whole real line (it is the piecewise-linear function through its rows) *)
+From DHV Require Import LMono.
+Theorem C18_monotone : forall (tbl : list (R * R)) (tol a b : R), rising tbl -> (2 <= length tbl)%nat -> a < b ->
+  exists va vb, lookup RN tbl true true tol a = Some va /\ lookup RN tbl true true tol b = Some vb /\ va < vb.
+Proof. exact LMono.lookup_increasing. Qed.
+Print Assumptions C18_monotone.
+
+Theorem C18_is_piecewise_linear : forall (tbl : list (R * R)) (tol k : R), increasing tbl -> (2 <= length tbl)%nat ->
+  lookup RN tbl true true tol k = Some (pwl tbl k).
+Proof. exact LMono.lookup_pwl. Qed.
+Print Assumptions C18_is_piecewise_linear.
